@@ -194,6 +194,9 @@ func replayFinding(cfg CheckCfg, r HarnessResult, f Finding, modelPath string) s
 	var hooks []hookInfo
 	var targets []string
 	for t := range l.stubs {
+		if symbolicOnly[t] {
+			continue
+		}
 		targets = append(targets, t)
 	}
 	sort.Strings(targets)
